@@ -3,7 +3,8 @@ import itertools
 ID = "C16"
 LEAN_TARGETS = ["Rsp.Props.C16"]
 THEOREMS = ["Rsp.Props.C16.server_framing_depends_only_on_stream", "Rsp.Props.C16.segmentation_independent", "Rsp.Props.C16.readN_blocking",
-            "Rsp.Props.C16.radGet_blocking", "Rsp.Props.C16.pollScript_blocking", "Rsp.Props.C16.framesOut_step", "Rsp.Props.C16.checkedRadLength_pos_iff"]
+            "Rsp.Props.C16.radGet_blocking", "Rsp.Props.C16.pollScript_blocking", "Rsp.Props.C16.framesOut_step", "Rsp.Props.C16.checkedRadLength_pos_iff",
+            "Rsp.Props.C16.client_packets_prefix_of_framing", "Rsp.Props.C16.radGet_nb", "Rsp.Props.C16.readN_nb"]
 RULE = ("the real radtcpget/tcpreadtimeout on a socketpair whose peer is scripted from inside poll(): streams of 1..4 packets of lengths 20..4096 (boundary lengths 20,21,4095,4096), "
         "EVERY split point of short streams (exhaustive two-way partitions), random partitions of long ones incl. 1-octet writes and splits inside the 4-octet header, stalls longer "
         "than the reader's timeout at every position, end of stream at every offset, length fields 0..19 and 4097..65535; server-side loop (no timeout) and client-side loop "
@@ -12,10 +13,11 @@ EXHAUSTIVE = {"quick": ["get_checked_rad_length on all 65536 length-field values
               "thorough": ["get_checked_rad_length on all 65536 length-field values", "every two-way split and every truncation point of 2- and 3-packet streams, with and without a stall at the split"]}
 ASSUMPTIONS = ["TLS (radtlsget/sslreadtimeout) has the same structure over SSL_read and received the same repair; it is not executed by the harness",
                "one read() returns what one write() delivered or a prefix of it (the scripted peer writes only when the socket buffer is empty)"]
-LEVEL_TEXT = ("Lean 4 theorems for the no-timeout reader (tcpserverrd): whatever the partition of the octets into writes and whatever silences lie between them, the sequence of packets "
-              "extracted and the way the connection ends are a function of the octet stream alone, equal to its frame decomposition (server_framing_depends_only_on_stream, by induction "
-              "on the stream; segmentation_independent). PARTIAL for the timeout reader (tcpclientrd): the property 'extracted packets are a prefix of the stream's framing; a stall "
-              "inside a message ends the connection' is checked by the spec monitor on the real code and by correspondence with the model, not proved.")
+LEVEL_TEXT = ("Lean 4 theorems. Reader without timeout (tcpserverrd): whatever the partition of the octets into writes and whatever silences lie between them, the packets extracted "
+              "and the way the connection ends are the frame decomposition of the octet stream alone (server_framing_depends_only_on_stream, segmentation_independent). Reader with "
+              "timeout (tcpclientrd): for every script of writes, stalls and end of stream, the packets handed to replyh are a prefix of that decomposition - a timeout consumes nothing, "
+              "a stall inside a message ends the connection, no partial or misframed packet is processed (client_packets_prefix_of_framing). get_checked_rad_length is positive exactly for "
+              "20..4096 (checkedRadLength_pos_iff). PARTIAL: the TLS variant (radtlsget/sslreadtimeout) has the same structure and repair but is not executed or separately modelled.")
 LEVEL_NOTE = "Trusted: Lean kernel + std axioms; harness (poll interposition, socketpair); generators. Modelled: tcpreadtimeout, radtcpget, the two reader loops. TLS path not executed."
 TECHNIQUE = "Lean 4 proof (induction over the stream, invariant 'pending octets') + differential correspondence on scripted socket peers + spec monitor on extracted packets"
 DESIGN_REF = "§5 C16"
